@@ -112,9 +112,9 @@ Print Assumptions C13_model_passes_rcpt_checker.
     pointers outside the file, slot counts up to 2^32-1, tables without empty slot, zero-length keys, keys
     containing NUL): the model never reads at an offset >= the size of the mapping ([Crash]); the result is
     NULL with errno 0 (not found) or EINVAL (no valid database), or a pointer that lies inside the mapping
-    behind a record header and the key. *)
+    behind a record header and the key, with the whole value (the record's data length) inside the mapping. *)
 Theorem C13_cdb_safe : forall f key,
-  exists r, cdb_seekmm f key = Ok r /\ seek_post (N.of_nat (length f)) (N.of_nat (length key)) r.
+  exists r, cdb_seekmm f key = Ok r /\ seek_post f (N.of_nat (length f)) (N.of_nat (length key)) r.
 Proof. exact cdb_seekmm_safe. Qed.
 Print Assumptions C13_cdb_safe.
 
